@@ -3,7 +3,7 @@
 # /repo (patch applied there; PUAN_REPO points the check at it); one line per seed in seeded/recheck_<head>.log
 cd /verif
 HEAD=$(git -C /repo rev-parse --short HEAD)
-export LOG=/verif/seeded/recheck_$HEAD.log; : > $LOG
+export LOG=/verif/seeded/recheck_$HEAD${VERIF_SEED:+_seed$VERIF_SEED}.log; : > $LOG
 one() {
   n=$1; d=/verif/seeded/$n
   p=$(/venv/bin/python -c "import json;print(json.load(open('$d/meta.json')).get('property',''))")
